@@ -266,6 +266,7 @@ CHECKS = {
             R("TestC15_FileConfig", 96, 1600, shards=16),
             R("TestC15_Dashboard", 160, 4800, shards=16),
             R("TestC15_DashboardRun", 1600, 30000, shards=16),
+            R("TestC15_Safe", 40000, 2000000, shards=8),
         ],
     ),
     "C20": dict(
